@@ -242,7 +242,9 @@ func (s *Set) Intersect(t Set) error {
 				max = telem.max
 				maxOpen = telem.maxOpen
 			}
-			span, err := newSpan(min, minOpen, max, maxOpen)
+			// newSpan normalises the versions it is given in place, and these
+			// belong to the operands (and to every Set sharing their spans).
+			span, err := newSpan(min.copy(), minOpen, max.copy(), maxOpen)
 			if err != nil {
 				return err
 			}
